@@ -11,7 +11,7 @@ EXPLANATION = (
     'touches the trash or the destination.  Does not decide what --overwrite does to each '
     'destination kind (shutil.move semantics).')
 ASSUMPTIONS = ['A4 no concurrent creation of the destination between probe and move']
-MINIMUM = {'R06.1': 1, 'R06.2': 1, 'R06.3': 2}
+MINIMUM = {'R06.1': 1, 'R06.2': 1, 'R06.3': 2, 'R06.4': 1, 'R06.5': 1}
 
 
 # rules of sibling properties that are necessary conditions of this one too
@@ -88,3 +88,40 @@ def check(ctx):
                    message='after refusing, restore still performs %s at %s'
                            % (touched[0].data['kind'] if touched else '',
                               touched[0].loc() if touched else ''))
+    # ---- R06.4 every selected entry is restored or refused: nothing is skipped silently
+    # ---- R06.5 a failing mkdir of the parent aborts the entry, it is not swallowed
+    mkdirs = [e for e in muts if e.data['kind'] == 'CREATE_DIR']
+    for m in moves:
+        loops = [g.n(d) for d in g.dominators(m.id) if g.n(d).kind == 'loop' and d != m.id]
+        lp = None
+        for cand in loops:           # innermost first
+            its = [t for t, l in g.succ[cand.id] if g.n(t).kind == 'iteration']
+            body = g.reachable_from(its, blocked=[cand.id] + (
+                [cand.data['exit']] if cand.data.get('exit') is not None else []))
+            if m.id in body:
+                lp = (cand, its)
+                break
+        if lp is None:
+            ctx.ob('R06.4', 'the MOVE sits in the loop over the selected entries', False,
+                   node=m, message='no loop over selected entries encloses the MOVE')
+            continue
+        head, its = lp
+        skip = feasible_path(b, its, head.id, blocked=[x.id for x in moves],
+                             edge_ok=normal_edge)
+        ctx.ob('R06.4', 'every selected entry is moved back or leaves by an error (no silent '
+                        'skip)', skip is None, node=m,
+               message='an entry selected by the user can be passed over without being '
+                       'restored and without an error: exit status 0, no message, the entry '
+                       'stays in the trash')
+        for e in mkdirs:
+            if m.id not in g.reachable_from(e.id, blocked=[head.id]):
+                continue
+            exc = exc_successors(b, e.id)
+            swallowed = bool(exc) and bool(reachable_c(b, exc, [m.id], blocked=[head.id]))
+            ctx.ob('R06.5', 'a failed creation of the parent directory aborts the restore of '
+                            'that entry', not swallowed, node=e,
+                   message='the OSError of %s is swallowed and the MOVE still happens: the '
+                           'existence test was made before the directories existed (a Path '
+                           'with "missing/.." resolves differently afterwards), so an '
+                           'existing destination is replaced without --overwrite'
+                           % e.data['prim'])
